@@ -35,6 +35,12 @@ def execute(sc):
         probes['blind_monitor_mode'] = 1
     if st['long_chunk']:
         probes['chunk_of_100_or_more_rows'] = 1
+    if st['stamping'] == 'left':
+        probes['first_increment_stamp_equals_start_time'] = 1
+    if st['stamping'] == 'dup':
+        probes['increment_with_dt_zero'] = 1
+    if st['zero_predict']:
+        probes['predict_over_zero_fraction'] = 1
     return dict(violations=v02, digest=dg, sig=st['sig'],
                 nontrivial=(st['ops'] > 1 and (st['grow'] or st['set_pva'] or st['predicts']
                                                or st['empty_chunks'])),
@@ -63,7 +69,9 @@ def sample_view(sc):
 PROBES_WANTED = ['buffer_growth', 'growth_during_predict', 'chunk_straddles_capacity',
                  'empty_chunk', 'restart_after_set_pva', 'restart_in_2d_mode',
                  'predict_interleaved', 'overwrite_keeping_held_attitude',
-                 'blind_monitor_mode', 'chunk_of_100_or_more_rows']
+                 'blind_monitor_mode', 'chunk_of_100_or_more_rows',
+                 'first_increment_stamp_equals_start_time', 'increment_with_dt_zero',
+                 'predict_over_zero_fraction']
 
 
 def describe():
